@@ -3209,6 +3209,11 @@ _dbus_poll (DBusPollFD *fds,
 #endif
 }
 
+#ifdef DBUS_VERIF
+/* Verification hook: when set, replaces both clocks (which: 0 monotonic, 1 real). */
+void (*_dbus_verif_clock_hook) (int which, long *tv_sec, long *tv_usec) = NULL;
+#endif
+
 /**
  * Get current time, as in gettimeofday(). Use the monotonic clock if
  * available, to avoid problems when the system time changes.
@@ -3220,6 +3225,13 @@ void
 _dbus_get_monotonic_time (long *tv_sec,
                           long *tv_usec)
 {
+#ifdef DBUS_VERIF
+  if (_dbus_verif_clock_hook != NULL)
+    {
+      _dbus_verif_clock_hook (0, tv_sec, tv_usec);
+      return;
+    }
+#endif
 #ifdef HAVE_MONOTONIC_CLOCK
   struct timespec ts;
   clock_gettime (CLOCK_MONOTONIC, &ts);
@@ -3252,6 +3264,14 @@ _dbus_get_real_time (long *tv_sec,
                      long *tv_usec)
 {
   struct timeval t;
+
+#ifdef DBUS_VERIF
+  if (_dbus_verif_clock_hook != NULL)
+    {
+      _dbus_verif_clock_hook (1, tv_sec, tv_usec);
+      return;
+    }
+#endif
 
   gettimeofday (&t, NULL);
 
